@@ -517,6 +517,94 @@ theorem C06_one_item_per_citation_nonvacuous :
   cases hrun
   exact ⟨⟨h1, h2, h3, rfl⟩, by simp [itemEx]⟩
 
+namespace C06Ex
+/-- `FUNCTION {f} {cite$ write$ newline$}` and `ITERATE {f}`, `REVERSE {f}`, `SORT` as parsed commands -/
+def funEx : Bst.Command :=
+  ⟨s "FUNCTION", [[.name (s "f")], [.name (s "cite$"), .name (s "write$"), .name (s "newline$")]]⟩
+def iterEx : Bst.Command := ⟨s "ITERATE", [[.name (s "f")]]⟩
+def revEx : Bst.Command := ⟨s "REVERSE", [[.name (s "f")]]⟩
+def sortEx : Bst.Command := ⟨s "SORT", []⟩
+
+/-- Boolean form of `InvEx st ∧ st.vars.getItem "f" = some fEx` (`VarObj` has no decidable equality) -/
+def invExB (st : St) : Bool :=
+  (match st.vars.getItem (s "cite$") with | some (.builtin .cite) => true | _ => false) &&
+  (match st.vars.getItem (s "write$") with | some (.builtin .write) => true | _ => false) &&
+  (match st.vars.getItem (s "newline$") with | some (.builtin .newline) => true | _ => false) &&
+  st.buffer.isEmpty &&
+  (match st.vars.getItem (s "f") with
+   | some (.func [.name a, .name b, .name c]) => a == s "cite$" && b == s "write$" && c == s "newline$"
+   | _ => false)
+
+theorem invExB_sound {st : St} (h : invExB st = true) : InvEx st ∧ st.vars.getItem (s "f") = some fEx := by
+  simp only [invExB, Bool.and_eq_true] at h
+  obtain ⟨⟨⟨⟨h1, h2⟩, h3⟩, h4⟩, h5⟩ := h
+  refine ⟨⟨?_, ?_, ?_, List.isEmpty_iff.1 h4⟩, ?_⟩
+  · split at h1
+    · rename_i e; exact e
+    · cases h1
+  · split at h2
+    · rename_i e; exact e
+    · cases h2
+  · split at h3
+    · rename_i e; exact e
+    · cases h3
+  · split at h5
+    · rename_i a b c e
+      simp only [Bool.and_eq_true, beq_iff_eq] at h5
+      obtain ⟨⟨rfl, rfl⟩, rfl⟩ := h5
+      exact e
+    · cases h5
+
+/-- lines of a result, `none` on error -/
+def linesOf (r : Except IErr St) : Option (List Str) :=
+  match r with
+  | .ok st => some st.lines
+  | .error _ => none
+end C06Ex
+
+/-- `C06_one_item_per_citation` INSTANTIATED: the state `st` the interpreter is in after
+`READ FUNCTION {f} {cite$ write$ newline$}` on the example database (a real state of a run, with
+resolved citations `a b`) satisfies `InvEx st` (`hs`) and binds `f` to `fEx` (`hv`); `hg`, `ht`, `hf`,
+`hcit` hold; so the three conclusions of the theorem apply to `ITERATE {f}`, `REVERSE {f}` and
+`SORT ITERATE {f}` from `st` — and these commands do succeed from `st`, with the lines the theorem
+predicts (all sort keys are missing here = equal keys: the sort keeps citation order). -/
+theorem C06_one_item_per_citation_instance :
+    ∃ st, runProgram 100 inp1 [rdEx, funEx] S0 = .ok st ∧
+      -- the hypotheses `hs`, `hv` of the theorem, and the resolved citations
+      InvEx st ∧ st.vars.getItem (s "f") = some fEx ∧ st.citations = [s "a", s "b"] ∧ st.lines = [] ∧
+      -- its conclusions for this state (fuel 10)
+      (∀ st', runCommand 10 inp1 iterEx st = .ok st' → st'.lines = st.lines ++ st.citations.flatMap itemEx) ∧
+      (∀ st', runCommand 10 inp1 revEx st = .ok st' → st'.lines = st.lines ++ st.citations.reverse.flatMap itemEx) ∧
+      (∀ st', runProgram 10 inp1 [sortEx, iterEx] st = .ok st' →
+        ∃ l : List (Str × Str), l.map (·.2) = st.citations ∧
+          st'.lines = st.lines ++ ((sortByKey l).map (·.2)).flatMap itemEx) ∧
+      -- the commands succeed from `st`, so the conclusions are not vacuous either
+      linesOf (runCommand 10 inp1 iterEx st) = some [s "a", s "\n", s "b", s "\n"] ∧
+      linesOf (runCommand 10 inp1 revEx st) = some [s "b", s "\n", s "a", s "\n"] ∧
+      linesOf (runProgram 10 inp1 [sortEx, iterEx] st) = some [s "a", s "\n", s "b", s "\n"] := by
+  have hchk : (match runProgram 100 inp1 [rdEx, funEx] S0 with
+      | .ok st => invExB st && decide (st.citations = [s "a", s "b"]) && st.lines.isEmpty &&
+          decide (linesOf (runCommand 10 inp1 iterEx st) = some [s "a", s "\n", s "b", s "\n"]) &&
+          decide (linesOf (runCommand 10 inp1 revEx st) = some [s "b", s "\n", s "a", s "\n"]) &&
+          decide (linesOf (runProgram 10 inp1 [sortEx, iterEx] st) = some [s "a", s "\n", s "b", s "\n"])
+      | .error _ => false) = true := by decide +kernel
+  cases hrun : runProgram 100 inp1 [rdEx, funEx] S0 with
+  | error e => rw [hrun] at hchk; cases hchk
+  | ok st =>
+    rw [hrun] at hchk
+    simp only [Bool.and_eq_true, decide_eq_true_eq] at hchk
+    obtain ⟨⟨⟨⟨⟨hinv, hc⟩, hl⟩, r1⟩, r2⟩, r3⟩ := hchk
+    obtain ⟨hs, hv⟩ := invExB_sound hinv
+    obtain ⟨hf, hcit, -⟩ := C06_one_item_per_citation_nonvacuous
+    obtain ⟨c1, -, c3⟩ := C06_one_item_per_citation 10 inp1 fEx InvEx itemEx hf hcit iterEx
+      (.name (s "f")) [] (s "f") rfl rfl st hs hv
+    obtain ⟨-, c2, -⟩ := C06_one_item_per_citation 10 inp1 fEx InvEx itemEx hf hcit revEx
+      (.name (s "f")) [] (s "f") rfl rfl st hs hv
+    refine ⟨st, rfl, hs, hv, hc, List.isEmpty_iff.1 hl, c1 (by decide), c2 (by decide), ?_, r1, r2, r3⟩
+    intro st' h
+    obtain ⟨l, h1, -, h3, -⟩ := c3 (by decide) sortEx (by decide) st' h
+    exact ⟨l, h1, h3⟩
+
 /-- `strLt` (Python's `<` on `str`) is a strict total order: ties of the sort are equal keys. -/
 theorem C06_sort_order_total (a b c : Str) :
     strLt a a = false ∧ (strLt a b = true → strLt b c = true → strLt a c = true) ∧
@@ -787,8 +875,10 @@ function beginning with that prologue, a function body `output.bibitem rest…` 
 does (the output only grows).
 (2) `ITERATE` over such a function `f`, under an invariant the style maintains (the bindings stay,
 every entry ends with `newline$`, i.e. an empty buffer; between two calls no entry is current): the output is the old output followed, for
-each resolved citation in order, by `\bibitem{k}` and that entry's further lines — exactly one
-`\bibitem` block per citation, in citation order. -/
+each resolved citation in order, by `\bibitem{k}` and that entry's further lines — as many blocks
+as citations, in citation order, each BEGINNING with `\bibitem{k}`.  The further lines (`mores`) are
+unconstrained: they are whatever the rest of the entry function writes, and nothing here excludes
+that they contain `\bibitem` text again. -/
 theorem C06_item_starts_with_bibitem (fuel : Nat) (obTail rest : List BTok) :
     (∀ (st st' : St) (k : Str), StdOut st.vars →
       st.vars.getItem "output.bibitem".toList = some (.func (bibitemHead ++ obTail)) → st.cur = some k →
